@@ -24,6 +24,7 @@ func init() {
 		rules.QueryPathWrites(p, r, "C14-pure")
 		rules.SeenSetKeyCompleteness(p, r, "C14-e")
 		rules.UnconditionalIPBlockContribution(p, r, "C14-f")
+		rules.ClusterWideCondition(p, r, "C14-cluster-wide")
 		rules.LabelMatchingByLibrary(p, r, "C14-match")
 	})
 }
